@@ -15,7 +15,7 @@ Link to the code:
 from __future__ import annotations
 
 import gen_fp2
-from vlib import Ctx
+from vlib import Ctx, InfraError
 
 PROPERTY = "C18"
 LEAN_TARGETS = ["Ipv8.C18.Props"]
@@ -56,7 +56,8 @@ PRIMES = [5, 11, 23, 29, 101, 1019, 65537, 2 ** 61 - 1, 2 ** 127 - 1]
 
 def generate(ctx: Ctx):
     src, _ = gen_fp2.translate()
-    return [("Ipv8/C18/GenFP2.lean", src), ("Ipv8/C18/GenGuard.lean", gen_fp2.translate_guards())]
+    return [("Ipv8/C18/GenFP2.lean", src), ("Ipv8/C18/GenGuard.lean", gen_fp2.translate_guards()),
+            ("Ipv8/C18/GenRange.lean", gen_fp2.translate_range()), ("Ipv8/C18/GenAttest.lean", gen_fp2.translate_attest())]
 
 
 # ---- exact arithmetic in F_p[w]/(w^2+w+1), written independently of both the model and the code -------------
@@ -687,6 +688,19 @@ def exact_round(ctx: Ctx, batch: Batch, fmt: str, value: bytes, order_kind: str,
             fail("certainty:other-value", f"value {other!r} scores {c2!r}, expected {float(w2)!r}", other=other.hex())
         batch.add(f"score {' '.join(map(str, oprof))} {' '.join(map(str, got))}", c2,
                   cmp=lambda m, c: close(c, parse_rat(m.split()[1])), tag="certainty of another value")
+    # --- a challenge that is no encryption of 0, 1 or 2 is answered 3 -----------------------------------------------
+    from ipv8.attestation.wallet.primitives.structs import pack_pair as _pp
+    junk_m = rng.randrange(3, 200)
+    rec_j = Recorder(rng)
+    with Patched((boneh, "randint", rec_j.randint)):
+        junk = boneh.encode(pk, junk_m)
+    jr = alg.create_challenge_response(sk, att, _pp(junk.a, junk.b))
+    want_j = next((x for x in (0, 1, 2) if (x - junk_m) % (sk.n // sk.t1) == 0), 3)
+    ctx.count(f"response-to-undecodable:{jr[0] if len(jr) == 1 else 'malformed'}")
+    if len(jr) != 1 or jr[0] != want_j:
+        fail("create_challenge_response:undecodable", f"an encryption of {junk_m} is answered {jr!r}, expected {want_j}")
+    batch.add(f"resp {p} {sk.g.a} {sk.g.b} {sk.t1} {junk.a} {junk.b}", str(jr[0]) if len(jr) == 1 else "?",
+              tag="create_challenge_response (undecodable)")
     # --- honesty checks (known plaintexts) -----------------------------------------------------------------------
     for m in (0, 1, 2):
         rec_h = Recorder(rng)
@@ -795,6 +809,12 @@ def scoring_cases(ctx: Ctx, batch: Batch, n: int):
         c = battest.binary_relativity_certainty(dict(ed), dict(vd))
         wm, wc = spec_match(e, v), spec_certainty(e, v)
         ctx.count("scoring:result:" + ("zero" if wc == 0 else "full" if v == e else "positive"))
+        if wm != 0 and any((not e[k]) or (not v[k]) for k in range(4)):
+            ctx.count("branch:match:class-skipped")
+        if wm == 0:
+            ctx.count("branch:match:observed-exceeds-expected")
+        if wm != 0 and any(e[k] and v[k] for k in range(4)):
+            ctx.count("branch:match:ratio-multiplied")
         if not close(m, wm) or not close(c, wc):
             ctx.oracle_fail("binary_relativity_certainty:formula", f"expected map {e}, observed {v}: match {m!r} "
                                                                     f"certainty {c!r}, specified {float(wm)!r} / {float(wc)!r}",
@@ -842,8 +862,16 @@ def bad_answer_cases(ctx: Ctx, n: int, forced=None):
 
 def ser_cases(ctx: Ctx, batch: Batch, n: int):
     """ipack / iunpack on integers of all sizes, with trailing data"""
+    import struct as _struct
     from ipv8.attestation.wallet.primitives import structs
     rng = ctx.rng
+    try:
+        structs.iunpack(b"")
+        empty = "accepted"
+    except _struct.error:
+        empty = "error"
+    ctx.count(f"ipack:empty-input:{empty}")
+    batch.add("iunpack -", empty, tag="iunpack of the empty string")
     for _ in range(n):
         kind = rng.choice(["tiny", "byte-edge", "word", "big", "huge", "pow256"])
         x = {"tiny": rng.randrange(3), "byte-edge": rng.choice([127, 128, 255, 256, 257, 65535, 65536]),
@@ -1485,7 +1513,10 @@ async def _community_round(ctx: Ctx, batch: Batch, mode: str, id_format: str, se
     rp = {"kind": "community", "mode": mode, "value": value.hex(), "id_format": id_format, "seed": seed}
     results = []
     try:
-        with Patched((wcom, "os", shim), (wcom, "choice", rec_choice)):
+        # the verifier's coin: community.py may reach os.urandom as `os.urandom` or through `from os import urandom`
+        coin = [(wcom, "os", shim)] if hasattr(wcom, "os") else []
+        coin += [(wcom, "urandom", shim.urandom)] if hasattr(wcom, "urandom") else []
+        with Patched(*coin, (wcom, "choice", rec_choice)):
             algorithm = prover.get_id_algorithm(id_format)
             sk = algorithm.generate_secret_key() if sk_hex is None else algorithm.load_secret_key(bytes.fromhex(sk_hex))
             rp["sk"] = sk.serialize().hex()
@@ -1721,6 +1752,27 @@ async def _community_round(ctx: Ctx, batch: Batch, mode: str, id_format: str, se
                 return canon(model) == canon(impl_)
 
             batch.add(f"vrun {n} {nat_list(flat)}", impl, cmp=same, tag=f"verifier bookkeeping ({mode})")
+            # which branches of on_challenge_response / the time-out did this schedule reach (from the REAL states)
+            for ev, before, after in zip(events, snaps, snaps[1:]):
+                (un0, pe0, rel0, k0), (un1, pe1, rel1, k1) = before, after
+                if ev[0] == 1:
+                    ctx.count("branch:verifier:timeout")
+                    continue
+                if before == after:
+                    ctx.count("branch:verifier:no-pending-cache:ignored")
+                    continue
+                if sum(rel1) == sum(rel0) + 1:
+                    ctx.count("branch:verifier:real-answer-counted")
+                elif len(un1) < len(un0):
+                    ctx.count("branch:verifier:answer-byte-above-3:challenge-consumed")
+                elif ev[1] >= n:
+                    ctx.count("branch:verifier:honesty-" + ("wrong" if k1 > k0 and un1 else "ok"))
+                if not un1 and k1 > k0:
+                    ctx.count("branch:verifier:completed")
+                new_ids = [i for i, _ in pe1 if i not in [j for j, _ in pe0]]
+                if un1 and len(un1) <= len(un0) and before != after and not (len(un1) < len(un0) and sum(rel1) == sum(rel0)):
+                    ctx.count("branch:verifier:next:" + ("honesty" if any(i >= n for i in new_ids) else
+                                                         "real" if new_ids else "none-left"))
             ctx.case(("community", mode, value, sk.p, tuple(events)), True)
     finally:
         prover.request_cache.clear()
@@ -1846,6 +1898,7 @@ async def _issuance_session(ctx: Ctx, batch: Batch, seed: int, force: dict):  # 
                             inflight.append((src, addr.index(address), packet)) if address in addr else None)(i)
 
     chunk_events = []
+    last_chunk = []
 
     async def settle():
         for _ in range(6):
@@ -1858,7 +1911,11 @@ async def _issuance_session(ctx: Ctx, batch: Batch, seed: int, force: dict):  # 
             if steps > limit:
                 raise _Diverged
             it = inflight.pop(0 if pick == "fifo" else rng.randrange(len(inflight)))
-            for _ in range(2 if dup and rng.random() < dup else 1):
+            is_chunk = it[1] == 1 and it[2][plen] == 2
+            twice = dup and (rng.random() < dup or (is_chunk and not chunk_events))   # the first chunk always, if dup
+            if is_chunk:
+                last_chunk[:] = [it]
+            for _ in range(2 if twice else 1):
                 if it[1] == 1 and it[2][plen] == 2:
                     _, dist, pl = attestee._ez_unpack_auth(AttestationChunkPayload, it[2])  # noqa: SLF001
                     chunk_events.append((dist.global_time, pl.attestation_hash, pl.sequence_number))
@@ -1925,6 +1982,9 @@ async def _issuance_session(ctx: Ctx, batch: Batch, seed: int, force: dict):  # 
                 futures[nm].set_result(by_name[nm]["value"])
                 await settle()
             await pump(pick="random", dup=0.3 if chunk_net.endswith("dup") else 0.0)
+        if last_chunk:                          # a stale duplicate after every transfer is complete
+            inflight.append(last_chunk[0])
+            await pump()
         ctx.count("session:requests", len(reqs))
         # ---- oracle 1: every attestation arrived and is stored with the key of the request it answers ----------------
         got_names = sorted(c[0] for c in completed)
@@ -1975,6 +2035,19 @@ async def _issuance_session(ctx: Ctx, batch: Batch, seed: int, force: dict):  # 
         batch.add(f"reqrun {nat_list(flat_req)} {nat_list(flat_ev)}", f"{nat_list(impl_stored)} {left}",
                   tag=f"issuance bookkeeping ({order_kind}, {chunk_net})")
         ctx.count("session:chunk-deliveries", len(chunk_events))
+        got_c, done_gt = {}, set()
+        for gt, h, seq in chunk_events:          # which branches of on_attestation_chunk were reached
+            if gt in done_gt:
+                ctx.count("branch:issuance:chunk-for-no-outstanding-request")
+            elif seq in got_c.setdefault(gt, set()):
+                ctx.count("branch:issuance:duplicate-chunk")
+            else:
+                got_c[gt].add(seq)
+                if len(got_c[gt]) == nchunks[h]:
+                    done_gt.add(gt)
+                    ctx.count("branch:issuance:attestation-complete")
+                else:
+                    ctx.count("branch:issuance:partial")
         # ---- oracle 2: the same two nodes verify every attribute, format after format --------------------------------
         vorder = rng.sample([r for r in reqs if "hash" in r], len([r for r in reqs if "hash" in r]))
         vorder = vorder + vorder[:1]            # and the first one again after the others
@@ -2124,6 +2197,38 @@ def exhaustive_small(ctx: Ctx):
     ctx.count("exhaustive:ipack", 70000)
 
 
+REQUIRED_BRANCHES = [
+    # every branch of the hand-written (not translated) model definitions that carry a clause must be reached by the
+    # correspondence run of EVERY quick run; a class that stays at zero is a loss of coverage, not a pass
+    "branch:verifier:timeout", "branch:verifier:no-pending-cache:ignored", "branch:verifier:real-answer-counted",
+    "branch:verifier:answer-byte-above-3:challenge-consumed", "branch:verifier:honesty-ok",
+    "branch:verifier:honesty-wrong", "branch:verifier:completed", "branch:verifier:next:honesty",
+    "branch:verifier:next:real", "branch:verifier:next:none-left",
+    "branch:issuance:chunk-for-no-outstanding-request", "branch:issuance:duplicate-chunk",
+    "branch:issuance:attestation-complete", "branch:issuance:partial",
+    "branch:match:class-skipped", "branch:match:observed-exceeds-expected", "branch:match:ratio-multiplied",
+    "scoring:result:full", "score:true:full", "score:true:partial", "score:other:zero",
+    "decode:012:hit", "decode:012:none", "decode:byte:hit", "response:0", "response:1", "response:2",
+    "response-to-undecodable:3", "encode:draws:1", "encode:draws:2", "bad-answer:KeyError", "ipack:empty-input:error",
+    "range:outside:ValueError", "range:outside:diverged", "range:max-not-positive", "range:m2:nonneg",
+    "range:cheater:order-shift", "range:cheater:only-x-fails", "range:cheater:only-y-fails",
+    "range:boundary-challenge", "range:history:own-first:later:other", "range:aggregate:good-then-bad",
+    "format:sha256_4", "format:sha256", "format:sha512",
+]
+
+
+def check_branch_coverage(ctx: Ctx):
+    """exit 2 (infrastructure) when a branch class the design lists was not reached although nothing else failed"""
+    missing = [k for k in REQUIRED_BRANCHES if not ctx.counts.get(k)]
+    ctx.extra["required_branch_classes"] = {k: ctx.counts.get(k, 0) for k in REQUIRED_BRANCHES}
+    import vlib
+    known = {k.get("signature") for k in vlib.load_known_findings()
+             if k.get("property") == PROPERTY and k.get("status") == "known"}
+    new_failures = [f for f in ctx.failures if f["signature"] not in known]
+    if missing and not new_failures and not ctx.disagreements and not ctx.broken:
+        raise InfraError("coverage lost: these branch classes were not reached in this run: " + ", ".join(missing))
+
+
 def run(ctx: Ctx):
     if ctx.replay_input is not None:
         return replay(ctx, ctx.replay_input)
@@ -2131,6 +2236,7 @@ def run(ctx: Ctx):
     protocol_cases(ctx, ctx.scale(1, 8))
     if ctx.thorough():
         exhaustive_small(ctx)
+    check_branch_coverage(ctx)
 
 
 def search(ctx: Ctx, reason: str):
